@@ -199,6 +199,18 @@ def kf_multidict_update(f):
     keys = {k for k, _ in new}
     correct = [p for p in old if p[0] not in keys]
     buggy = _multidict_620_update(old, new)
+    if "raw_new" in obs:
+        # the update sees the argument's items before list values are expanded (a key with an empty list still takes part)
+        raw = [(k, v) for k, v in obs["raw_new"]]
+        mid = _multidict_620_update(old, raw)
+        buggy = []
+        for k, v in mid:
+            if isinstance(v, (list, tuple)):
+                buggy.extend((k, x if isinstance(x, str) else str(x)) for x in v)
+            else:
+                buggy.append((k, v))
+        keys = {k for k, _ in raw}
+        correct = [p for p in old if p[0] not in keys]
     dup_old = len({k for k, _ in old if k in keys}) >= 2 and any(sum(1 for kk, _ in old if kk == k) > 1 for k in keys)
     return dup_old and got == buggy and [p for p in got if p[0] not in keys] == correct
 
@@ -223,9 +235,6 @@ def kf_child_root_law(f):
     if not _climbs_above_root_then_empty(merged):
         return False
     results = [urlsplit(obs[k]).path or "/" for k in ("j1", "j2", "j3") if k in obs]
-    allowed = {ref.remove_dot_segments(merged) or "/", _child_model_popping_root(merged) or "/"}
-    # stepwise application normalises after each step: also allow the models applied stepwise
-    step1 = _child_model_popping_root((bp or "") + "/" + obs["a"]) or "/"
-    s1 = step1[:-1] if step1.endswith("/") else step1
-    allowed |= {_child_model_popping_root(s1 + "/" + obs["b"]) or "/", ref.remove_dot_segments(s1 + "/" + obs["b"]) or "/"}
-    return all(r in allowed for r in results)
+    # signature of the root cause: the spellings differ only in empty segments (slashes); the non-empty segments are the same
+    nonempty = [[seg for seg in r.split("/") if seg] for r in results]
+    return all(x == nonempty[0] for x in nonempty)
